@@ -383,6 +383,21 @@ class MessageAccumulator:
             batch.failure(exception)
         self._exception = exception
 
+    def fail_undrained(self, exception):
+        """Fail the batches that were never handed to the sender.
+
+        Used when a transaction can only be aborted: such batches have no
+        sequence number yet and their partition may not be part of the
+        transaction, so they must not be sent.
+        """
+        for tp in list(self._batches.keys()):
+            batches = self._batches[tp]
+            for batch in [b for b in batches if b.retry_count == 0]:
+                batches.remove(batch)
+                batch.failure(exception)
+            if not batches:
+                del self._batches[tp]
+
     async def close(self):
         self._closed = True
         await self.flush()
